@@ -4,6 +4,7 @@ import (
 	"context"
 	"fmt"
 	"os"
+	"sync"
 	"time"
 
 	"bbsim/simrt"
@@ -47,14 +48,19 @@ const (
 	c15VkPtr
 	c15VkErr
 	c15VkNil
-	c15VkSlice // an unnamed []int
+	c15VkSlice    // an unnamed []int
+	c15VkNilPtr   // a typed nil: (*T)(nil)
+	c15VkNilSlice // a typed nil: []int(nil)
 )
+
+// c15IsNil: the kinds whose receipts carry no uid (at most one such publish per run).
+func c15IsNil(vk int) bool { return vk == c15VkNil || vk == c15VkNilPtr || vk == c15VkNilSlice }
 
 // c15Ints is a named type whose underlying type is []int.
 type c15Ints []int
 
 var c15EtNames = []string{"chan int", "chan string", "chan any", "chan error", "chan *T", "chan NamedInts"}
-var c15VkNames = []string{"int", "string", "*T", "error", "nil", "[]int"}
+var c15VkNames = []string{"int", "string", "*T", "error", "nil", "[]int", "(*T)(nil)", "[]int(nil)"}
 
 // c15Assignable is the oracle's own table (Go assignability of the published value to the element
 // type); an untyped nil is acceptable to the nilable element types.
@@ -70,8 +76,10 @@ func c15Assignable(vk, et int) bool {
 		return et == c15EtError || et == c15EtAny
 	case c15VkNil:
 		return et == c15EtAny || et == c15EtError || et == c15EtPtr || et == c15EtNamed
-	case c15VkSlice:
+	case c15VkSlice, c15VkNilSlice:
 		return et == c15EtNamed || et == c15EtAny
+	case c15VkNilPtr:
+		return et == c15EtPtr || et == c15EtAny
 	}
 	return false
 }
@@ -88,6 +96,10 @@ func c15Value(vk, uid int) any {
 		return c15Err{uid}
 	case c15VkSlice:
 		return []int{uid}
+	case c15VkNilPtr:
+		return (*c15T)(nil) // a value with a type: goes where a *T goes, nowhere else
+	case c15VkNilSlice:
+		return []int(nil)
 	}
 	return nil
 }
@@ -297,6 +309,7 @@ type c15Sub struct {
 	cancel                                        context.CancelFunc
 	subInv, subRet, cancelInv, unsubInv, unsubRet int64
 	cancelRet                                     int64 // the cancel function of its context has returned (0: unknown)
+	doubleUnsub                                   bool  // its Unsubscribe is issued by two tasks at once
 	leaveCh                                       chan struct{}
 	left, done                                    bool
 	pinned                                        bool
@@ -369,6 +382,7 @@ func c15Notifier() {
 		s.ch.subs = append(s.ch.subs, s)
 		s.ch.active++
 		s.mode = simrt.Draw(3)
+		s.doubleUnsub = simrt.Chance(1, 6)
 		if s.ch.recvMode == c15RecvAbsent && s.mode == c15ModeSubscribe {
 			// nobody receives: only the subscription's context can release a publisher
 			s.mode = 1 + simrt.Draw(2)
@@ -404,7 +418,7 @@ func c15Notifier() {
 			p := &c15Pub{uid: 1000*(t+1) + k, key: simrt.Draw(nKeys), vk: []int{c15VkInt, c15VkString, c15VkPtr, c15VkErr, c15VkSlice}[simrt.Draw(5)], p: drawPause(), cancelPause: drawPause()}
 			if nilLeft > 0 && simrt.Chance(1, 3) {
 				nilLeft--
-				p.vk = c15VkNil
+				p.vk = []int{c15VkNil, c15VkNil, c15VkNilPtr, c15VkNilSlice}[simrt.Draw(4)]
 			}
 			switch x := simrt.Draw(10); {
 			case x < 4:
@@ -527,6 +541,29 @@ func c15Notifier() {
 			}
 		}()
 		s.unsubInv = simrt.Stamp()
+		if s.doubleUnsub {
+			// two tasks unsubscribe the one subscription at the same time (a clean-up path racing the
+			// owner): exactly one of the calls removes it, the other is unmatched and panics
+			simrt.Probe("racing_unsubscribes_of_one_subscription")
+			panics := 0
+			var wg sync.WaitGroup
+			wg.Add(1)
+			go func() {
+				defer wg.Done()
+				if expectPanic(func() { nf.Unsubscribe(keys[s.key], s.ch.target) }) {
+					panics++
+				}
+			}()
+			if expectPanic(func() { nf.Unsubscribe(keys[s.key], s.ch.target) }) {
+				panics++
+			}
+			wg.Wait()
+			s.unsubRet = simrt.Stamp()
+			if panics != 1 && !simrt.Failed() {
+				simrt.Failf("C15.unmatched-unsubscribe", "subscription %d: two concurrent Unsubscribe calls, %d of them panicked; exactly one removes the subscription, the other one is unmatched and must panic", s.id, panics)
+			}
+			return
+		}
 		nf.Unsubscribe(keys[s.key], s.ch.target)
 		s.unsubRet = simrt.Stamp()
 	}
@@ -599,6 +636,8 @@ func c15Notifier() {
 		v := c15Value(p.vk, p.uid)
 		if p.vk == c15VkNil {
 			simrt.Probe("nil_publish")
+		} else if c15IsNil(p.vk) {
+			simrt.Probe("typed_nil_publish")
 		}
 		defer func() {
 			if r := recover(); r != nil {
@@ -865,7 +904,7 @@ func c15Notifier() {
 	byUID := map[int]*c15Pub{}
 	for _, p := range pubs {
 		byUID[p.uid] = p
-		if p.vk == c15VkNil {
+		if c15IsNil(p.vk) {
 			nilPub = p
 		}
 	}
@@ -888,7 +927,7 @@ func c15Notifier() {
 	for _, p := range pubs {
 		for _, c := range chans {
 			cnt := c.got[p.uid]
-			if p.vk == c15VkNil {
+			if c15IsNil(p.vk) {
 				cnt = c.got[0]
 			}
 			var s *c15Sub
